@@ -130,6 +130,7 @@ pub fn run(a: &Args) -> Report {
             unextractable: rng.chance(1, 2),
             subsume: rng.chance(1, 2),
             containers,
+            nested_containers: containers && rng.chance(1, 2),
             funcs: false,
             rules: rng.chance(1, 3),
             checks: false,
